@@ -253,6 +253,14 @@ func handleUIDStore(deps ServerDeps, conn net.Conn, tag string, parts []string, 
 		return
 	}
 
+	// Validate flags: anything but an atom could not be sent back in a FLAGS list
+	for _, flag := range newFlags {
+		if !message.ValidFlag(flag) {
+			deps.SendResponse(conn, fmt.Sprintf("%s BAD Invalid flag", tag))
+			return
+		}
+	}
+
 	// Parse UID sequence set using the correct database
 	uids := utils.ParseUIDSequenceSetWithDB(uidSequence, state.SelectedMailboxID, targetDB)
 	if len(uids) == 0 {
